@@ -186,6 +186,7 @@ class World(object):
                                        p_cov=0.0)
         pop = GP.build_chi(leaves, n_ids)
         self.pop_leaves = leaves
+        self.user_pop = pop
         hl = chi.HierarchicalLogLikelihood(self.lls, pop)
         h, xv, _ = GP.hierarchy_vector(rng, leaves, n_ids)
         # bottom entries near the individual point
@@ -334,8 +335,17 @@ class World(object):
         """later changes to the user's models"""
         kind = ['outputs', 'regimen', 'route', 'rename_params',
                 'rename_error', 'sensitivities', 'refix_user_model',
-                'refix_user_model'][int(rng.integers(8))]
+                'refix_user_model', 'sibling_hierarchical',
+                'sibling_hierarchical'][int(rng.integers(10))]
         um = self.user_model
+        if kind == 'sibling_hierarchical':
+            # the user builds another hierarchical likelihood for a smaller
+            # group from the same population-model object
+            try:
+                chi.HierarchicalLogLikelihood(self.lls[:-1], self.user_pop)
+            except Exception:       # noqa
+                return None
+            return kind
         if self.reduced_user_model and kind in ('route', 'rename_params'):
             kind = 'refix_user_model'
         try:
